@@ -131,6 +131,9 @@ def parse_output(out: str) -> dict:
         if ln.startswith('Error:') and 'The behavior up to this point' not in ln and 'The following behavior' not in ln:
             res['errors'].append(ln)
             continue
+        if in_trace and (ln.startswith('The coverage statistics') or 'states generated' in ln):
+            in_trace = False
+            cur = None
         if in_trace:
             if ln.startswith('State ') or re.match(r'^\d+: <', ln):
                 cur = {'header': ln, 'vars': []}
